@@ -15,9 +15,9 @@ def validate(w, evfile):
     return json.load(open(res))
 
 
-def plans(w, name, items, runs, simulate=None, seed=None, timeout=1800):
+def plans(w, name, items, runs, simulate=None, seed=None, timeout=1800, cfg="GateMC.cfg"):
     out = w.path(name)
-    r = run_tlc(w, "GateMC", "GateMC.cfg", env={"MAXITEMS": items, "MAXRUNS": runs, "OUT": out}, workers=1, timeout=timeout,
+    r = run_tlc(w, "GateMC", cfg, env={"MAXITEMS": items, "MAXRUNS": runs, "OUT": out}, workers=1, timeout=timeout,
                 simulate=simulate, depth=(8 * runs + 4) if simulate else None, seed=seed)
     if simulate:
         if "Error:" in r.out or r.inv_violation:
@@ -53,10 +53,12 @@ def run(rep, tier, seed):
         p1, r1 = plans(w, "plans_a.ndjson", 3 if thorough else 2, 1)
         p2, r2 = plans(w, "plans_b.ndjson", 1, 2)
         p3, r3 = plans(w, "plans_c.ndjson", 4, 3, simulate="num=%d" % (30000 if thorough else 2500), seed=seed)
-        rep.set("states", r1.distinct + r2.distinct); rep.set("transitions", r1.generated + r2.generated)
-        stats["tlc"] = {"exhaustive_items<=%d_runs=1" % (3 if thorough else 2): r1.distinct, "exhaustive_items<=1_runs=2": r2.distinct, "simulated_states": r3.generated}
+        p4, r4 = plans(w, "plans_d.ndjson", 2, 2, cfg="GateMC_focus.cfg")
+        rep.set("states", r1.distinct + r2.distinct + r4.distinct); rep.set("transitions", r1.generated + r2.generated + r4.generated)
+        stats["tlc"] = {"exhaustive_items<=%d_runs=1" % (3 if thorough else 2): r1.distinct, "exhaustive_items<=1_runs=2": r2.distinct, "simulated_plans": sum(1 for _ in open(p3))}
         nplans = 0
-        for tag, p in (("a", p1), ("b", p2), ("c", p3)):
+        stats["tlc"]["focused_macro_x_lazy_histories"] = r4.distinct
+        for tag, p in (("a", p1), ("b", p2), ("c", p3), ("d", p4)):
             for o, s in sharded(["gate-replay", "-in", p], w.path("ev_replay_" + tag), seed):
                 evs.append(o); nplans += s["plans"]
                 stats["replayed_inputs"] = stats.get("replayed_inputs", 0) + s["inputs"]
@@ -82,10 +84,17 @@ def run(rep, tier, seed):
         j = validate(w, evall)
         rows = read_ndjson(evall)
         drift = []
-        for b in j["bad"][:300]:
+        for b in j["bad"]:
+            if len(rep.violations) >= 300:
+                break
             e = rows[b["i"] - 1]
             why = sorted(b["why"])
             on = [k for k, v in e["cfg"].items() if v]
+            if why == ["prediction-lazy"]:
+                # that macros do not reach lazily compiled text is the specification's account of the mechanism; the property is
+                # broken only when a LATER input (or one without the macro) rolls the family, which `family-executed` reports
+                drift.append("lazy compilation: input %r flags on=%s predicted %s executed in nested VMs %s" % (e["example"], on, e["lazyPred"], e["lazyObs"]))
+                continue
             if why == ["prediction"] and e["example"].startswith("^st"):
                 # how an st value is parsed (flags saved, three switches off, restored) is the specification's account of the
                 # mechanism, not part of the property: a difference there alone is reported as drift of the model
